@@ -53,6 +53,9 @@ def check(ctx):
   r6(ctx, cls)
   r7(ctx, cls)
   r8(ctx, cls)
+  ctx.rule('C19.R9', 'callback gate: the event cleared by the outermost __enter__ of the blocker is set again by the matching __exit__ (set exactly when the nesting count returns to 0); '
+                     'the worker waits on it before every batch')
+  r9(ctx)
 
 
 def r1(ctx, osc, wk):
@@ -440,3 +443,46 @@ def r7(ctx, cls):
          'the children watch stopped on NoNodeError, the data watch sees a valid stat with _watching still True and nothing restarts the children watch: '
          'no later join or leave is ever reported',
          'for every history including deletion and re-creation of the path itself')
+
+
+def r9(ctx):
+  """The notification worker parks in ensure_safe() while get_members() runs; a gate that is not reopened stops all join/leave delivery."""
+  from ..util import counter_run, counter_entails, inline_expr_methods
+  prog = ctx.prog
+  why = ('get_members() closes the gate around its read of the member table and the notification worker waits for it before every batch: if the outermost exit does not '
+         'set the event again, no join or leave is ever delivered after the first get_members()')
+  ent = prog.try_func(Z, 'ServerSet._CallbackBlocker.__enter__')
+  ext = prog.try_func(Z, 'ServerSet._CallbackBlocker.__exit__')
+  if ent is None or ext is None:
+    ctx.ob('C19.R9', prog.func(Z, 'ServerSet._notification_worker'), 'callback blocker present', False, '_CallbackBlocker.__enter__/__exit__ not found', why)
+    return
+  attr = 'self._count'
+  for f, call, n0, delta, what in ((ent, 'clear', 0, 1, 'closed by the outermost enter'), (ext, 'set', 1, -1, 'reopened by the outermost exit')):
+    saw = False
+    for ev, ex in enum_paths(ctx, f):
+      if ex[0] == 'raise':
+        continue
+      import copy as _cp
+      ev2 = []
+      for e in ev:
+        if e.kind == 'cond':
+          e = _cp.copy(e)
+          e.node = inline_expr_methods(prog, f, e.node)
+        ev2.append(e)
+      writes, facts = counter_run(ev2, attr)
+      hit = [i for i, e in enumerate(ev) if e.kind == 'call' and U(e.node.func) == 'self.event.' + call]
+      final = writes[-1][1] if writes else (1, 0)
+      ctx.ob('C19.R9', f, '%s moves the nesting count by %+d' % (f.name, delta), final == (1, delta), 'count becomes %s*N%+d' % final, why)
+      if hit:
+        saw = True
+        ok = counter_entails([x for x in facts if x[0] < hit[0]], '==', n0)
+        ctx.ob('C19.R9', f, 'the gate is %s: event.%s() only when the count on entry is %d' % (what, call, n0), ok,
+               'event.%s() is reached under %s about the count on entry' % (call, [(r_, k_) for _, r_, k_ in facts]), why)
+      else:
+        ok = counter_entails(facts, '!=', n0)
+        ctx.ob('C19.R9', f, 'the gate is %s: every path for count %d on entry calls event.%s()' % (what, n0, call), ok,
+               'a path without event.%s() is possible when the count on entry is %d (conditions: %s)' % (call, n0, [(r_, k_) for _, r_, k_ in facts]), why)
+    ctx.ob('C19.R9', f, '%s has a path that calls event.%s()' % (f.name, call), saw, 'no path calls event.%s()' % call, why)
+  wk = prog.func(Z, 'ServerSet._notification_worker')
+  ctx.ob('C19.R9', wk, 'the worker waits for the gate before applying a batch', any(isinstance(c, ast.Call) and U(c.func).endswith('.ensure_safe') for c in ast.walk(wk.node)),
+         'ensure_safe() is not called by the worker', 'a batch applied while get_members() reads the table interleaves with it', nontrivial=False)
